@@ -181,8 +181,6 @@ Section Equiv.
   (* the renaming is injective on table names and, per table, on column names *)
   Hypothesis tab_inj : forall a b, name_eqb (rn_tab a) (rn_tab b) = name_eqb a b.
   Hypothesis col_inj : forall t a b, name_eqb (rn_col t a) (rn_col t b) = name_eqb a b.
-  (* no column is renamed from or to the special name `group` *)
-  Hypothesis group_stable : forall t c, name_eqb (rn_col t c) GROUP = name_eqb c GROUP.
   (* builtins do not look at table names *)
   Hypothesis prim1_nat : forall f v, prim1 f (rn_val rn_tab v) = rn_res rn_tab (prim1 f v).
   Hypothesis prim2_nat : forall f a b, prim2 f (rn_val rn_tab a) (rn_val rn_tab b) = rn_res rn_tab (prim2 f a b).
@@ -255,6 +253,10 @@ Section Equiv.
 
   (* ---- schema ---- *)
   Variable d : doc.
+  (* a column that would turn its table into a summary table if named `group` (a reference list with the group
+     formula) is not renamed from or to the name `group`; all other columns may be *)
+  Hypothesis group_stable : forall tb co, In tb d -> In co (tcols tb) -> is_grp co = true ->
+    name_eqb (rn_col (tname tb) (cname co)) GROUP = name_eqb (cname co) GROUP.
 
   Lemma find_table_rn : forall l t,
     find_table (map (rtab d) l) (rn_tab t) = option_map (rtab d) (find_table l t).
@@ -281,10 +283,32 @@ Section Equiv.
   Proof.
     intro t. unfold summary_source, rename_doc. rewrite find_table_rn.
     destruct (find_table d t) as [tb|] eqn:Ht; [|reflexivity]. cbn [option_map].
-    assert (Hg : find_col (rtab d tb) GROUP = option_map (rcolumn d (tname tb)) (find_col tb GROUP)).
-    { unfold find_col. cbn. apply find_map. intro co. cbn. apply group_stable. }
-    rewrite Hg. destruct (find_col tb GROUP) as [co|]; [|reflexivity]. cbn.
-    destruct (ctype co) as [|u|u]; destruct (cformula co) as [f|]; try reflexivity; destruct f; reflexivity.
+    pose proof (find_table_in _ _ _ Ht) as Hin.
+    change (match find_col (rtab d tb) GROUP with Some co => grp_src co | None => None end
+            = option_map rn_tab (match find_col tb GROUP with Some co => grp_src co | None => None end)).
+    destruct (name_eqb (rn_col (tname tb) GROUP) GROUP) eqn:EG.
+    - (* the name group stays: the same column is found *)
+      apply name_eqb_eq in EG.
+      assert (Hg : find_col (rtab d tb) GROUP = option_map (rcolumn d (tname tb)) (find_col tb GROUP)).
+      { unfold find_col. cbn. apply find_map. intro co. cbn.
+        transitivity (name_eqb (rn_col (tname tb) (cname co)) (rn_col (tname tb) GROUP)); [rewrite EG; reflexivity|].
+        apply col_inj. }
+      rewrite Hg. destruct (find_col tb GROUP) as [co|]; [|reflexivity]. cbn [option_map]. apply grp_src_rn.
+    - (* the name group moves: neither before nor after is a group-formula column named group *)
+      assert (Hold : match find_col tb GROUP with Some co => grp_src co | None => None end = None).
+      { destruct (find_col tb GROUP) as [co|] eqn:Hc; [|reflexivity]. apply is_grp_none.
+        destruct (is_grp co) eqn:Eg; [|reflexivity]. exfalso.
+        unfold find_col in Hc. apply find_some in Hc. destruct Hc as [Hco Hn].
+        pose proof (group_stable tb co Hin Hco Eg) as Hs. rewrite Hn in Hs. apply name_eqb_eq in Hn.
+        rewrite Hn, EG in Hs. discriminate. }
+      rewrite Hold. cbn [option_map].
+      destruct (find_col (rtab d tb) GROUP) as [co'|] eqn:Hc'; [|reflexivity].
+      unfold find_col in Hc'. apply find_some in Hc'. destruct Hc' as [Hco' Hn']. cbn [rn_table tcols] in Hco'.
+      apply in_map_iff in Hco'. destruct Hco' as [co [E Hco]]. subst co'. cbn in Hn'.
+      rewrite grp_src_rn. rewrite is_grp_none; [reflexivity|].
+      destruct (is_grp co) eqn:Eg; [|reflexivity]. exfalso.
+      pose proof (group_stable tb co Hin Hco Eg) as Hs. rewrite Hn' in Hs. symmetry in Hs. apply name_eqb_eq in Hs.
+      rewrite Hs, EG in Hn'. discriminate.
   Qed.
 
   Lemma rows_of_rn : forall t, rows_of (rdoc d) (rn_tab t) = rows_of d t.
